@@ -4,18 +4,21 @@ stdin JSON {"cases": [...]} -> 'RESULT <json list of observations>'.
 Case (all times in ticks of 2**-12 virtual seconds; every duration/injection time is a sum of powers of two that are
 distinct within the case, so no two timers of a case ever fall on the same instant):
   {"sub": "legacy"|"dm",
-   "tasks": [{"kind": "ev"|"st"|"svc"|"create", "at": ticks|null, "steps": [step, ...]}, ...],      # index = task number
+   "tasks": [{"kind": "ev"|"st"|"svc"|"create"|"csvc", "at": ticks|null, "steps": [step, ...]}, ...],  # index = task number
+            ("csvc": a @service started by another task's ["call", x] step instead of by the driver)
+   "cbform": "func"|"method",      # callbacks are plain functions / bound methods of distinct instances of ONE pyscript class
    "cbs":   [{"sleep": ticks (0 = does not suspend), "raise": bool}, ...],                       # index = callback function
    "faults": [{"task": i, "pt": ["step", k] | ["cb", j], "off": ticks}, ...]}
   step = ["sleep", d] | ["add", x, j, a] | ["rem", x, j] | ["wait", x] | ["cancel", x] | ["cancelself"]
        | ["create", c] | ["claim", n] | ["raise"] | ["ret", v]
+       | ["call", x]      service.call("pyscript", <service x>, blocking=True), then event "r"
 A fault calls the real Function.user_task_cancel(task i) `off` ticks after task i reached the given point (marker of step k
 / begin of callback j running as done-callback of task i).
 
 Observation: {"events": [[t, who, kind, ...data, snap], ...], "final": {...}, "err": [...]}
   who  = number of the task in which the event was fired (asyncio.current_task() looked up in the script's table T; -1 = none)
   snap = sum over tasks i of 16**i * (1*[in our_tasks] + 2*[in task2cb] + 4*[in task2context] + 8*[in unique_task2name])
-  kinds: "m" k | "x" excname | "w" x done cancelled result | "cb" j a | "ce" j | "f" i ok
+  kinds: "m" k | "x" excname | "w" x done cancelled result | "r" x done cancelled result | "cb" j a | "ce" j | "f" i ok
 """
 import asyncio
 import json
@@ -32,15 +35,35 @@ def secs(ticks):
 
 def make_script(case):
     out = ["T = {}", ""]
-    for j, cb in enumerate(case["cbs"]):
-        out.append(f"def cb{j}(*a, **k):")
-        out.append(f"    event.fire('pv_e', ev='cb', cb={j}, a=a[0])")
-        if cb["sleep"]:
-            out.append(f"    task.sleep({secs(cb['sleep'])})")
-            out.append(f"    event.fire('pv_e', ev='ce', cb={j})")
-        if cb["raise"]:
-            out.append("    raise ValueError('callback')")
+    if case.get("cbform") == "method":
+        # distinct callables sharing one underlying function: bound methods of distinct instances, each stored once
+        out += ["class CbK:",
+                "    def __init__(self, j, sl, rs):",
+                "        self.j = j",
+                "        self.sl = sl",
+                "        self.rs = rs",
+                "    def run(self, *a, **k):",
+                "        event.fire('pv_e', ev='cb', cb=self.j, a=a[0])",
+                "        if self.sl > 0:",
+                "            task.sleep(self.sl)",
+                "            event.fire('pv_e', ev='ce', cb=self.j)",
+                "        if self.rs:",
+                "            raise ValueError('callback')",
+                ""]
+        for j, cb in enumerate(case["cbs"]):
+            out.append(f"cbo{j} = CbK({j}, {secs(cb['sleep']) if cb['sleep'] else 0}, {bool(cb['raise'])})")
+            out.append(f"cb{j} = cbo{j}.run")
         out.append("")
+    else:
+        for j, cb in enumerate(case["cbs"]):
+            out.append(f"def cb{j}(*a, **k):")
+            out.append(f"    event.fire('pv_e', ev='cb', cb={j}, a=a[0])")
+            if cb["sleep"]:
+                out.append(f"    task.sleep({secs(cb['sleep'])})")
+                out.append(f"    event.fire('pv_e', ev='ce', cb={j})")
+            if cb["raise"]:
+                out.append("    raise ValueError('callback')")
+            out.append("")
     for i, tk in enumerate(case["tasks"]):
         kind = tk["kind"]
         if kind == "ev":
@@ -49,7 +72,7 @@ def make_script(case):
         elif kind == "st":
             out.append(f"@state_trigger(\"pyscript.pv_v{i} == 'go'\")")
             out.append(f"def body{i}(**kw):")
-        elif kind == "svc":
+        elif kind in ("svc", "csvc"):
             out.append("@service")
             out.append(f"def body{i}():")
         else:
@@ -79,6 +102,9 @@ def make_script(case):
                 out.append(f"{ind}T[{st[1]}] = task.create(body{st[1]})")
             elif op == "claim":
                 out.append(f"{ind}task.unique('n{st[1]}')")
+            elif op == "call":
+                out.append(f"{ind}service.call('pyscript', 'body{st[1]}', blocking=True)")
+                out.append(f"{ind}event.fire('pv_e', ev='r', x={st[1]})")
             elif op == "raise":
                 out.append(f"{ind}raise ValueError('body')")
             elif op == "ret":
@@ -198,6 +224,8 @@ async def run_case(case):
                 events.append([t, who, "x", d["e"], snap()])
             elif ev == "w":
                 events.append([t, who, "w", d["x"]] + result_code(table.get(d["x"])) + [snap()])
+            elif ev == "r":
+                events.append([t, who, "r", d["x"]] + result_code(table.get(d["x"])) + [snap()])
             elif ev == "cb":
                 events.append([t, who, "cb", d["cb"], d["a"], snap()])
                 arm(who, ["cb", d["cb"]])
@@ -206,7 +234,7 @@ async def run_case(case):
 
         hass.bus.async_listen(MATCH_ALL, rec)
 
-        inj = sorted((tk["at"], i) for i, tk in enumerate(case["tasks"]) if tk["kind"] != "create")
+        inj = sorted((tk["at"], i) for i, tk in enumerate(case["tasks"]) if tk["kind"] not in ("create", "csvc"))
         for at, i in inj:
             await sleep_until(base + at * TICK)
             kind = case["tasks"][i]["kind"]
